@@ -51,6 +51,31 @@ func (c Call) String() string {
 		return fmt.Sprintf("SetUMask(%#o)", c.Perm)
 	}
 
+	if strings.Contains(c.Op, ".") { // handle steps: print every non-zero field
+		s := c.Op + "("
+		if c.A != "" {
+			s += fmt.Sprintf("%q,", c.A)
+		}
+
+		if c.Op == "H.Open" || c.Op == "SH.Open" {
+			s += FlagString(c.Flag) + ","
+		}
+
+		if c.Data != "" {
+			s += fmt.Sprintf("%q,", c.Data)
+		}
+
+		if c.N != 0 || c.M != 0 {
+			s += fmt.Sprintf("%d,%d,", c.N, c.M)
+		}
+
+		if c.Perm != 0 {
+			s += fmt.Sprintf("%#o,", c.Perm)
+		}
+
+		return strings.TrimSuffix(s, ",") + ")"
+	}
+
 	return fmt.Sprintf("%s(%q)", c.Op, c.A)
 }
 
@@ -592,11 +617,15 @@ func Dump(v avfs.VFS, root string, o DumpOpts) []string {
 
 		if !o.NoPerm {
 			attrs += " " + ModeString(m)
+		} else {
+			attrs += " ----"
 		}
 
 		if !o.NoOwner {
 			st := v.ToSysStat(fi)
 			attrs += fmt.Sprintf(" %d:%d", st.Uid(), st.Gid())
+		} else {
+			attrs += " -:-"
 		}
 
 		if o.Mtime {
@@ -714,4 +743,241 @@ func DiffLines(a, b []string) string {
 	}
 
 	return strings.Join(d, " | ")
+}
+
+// ResolveLoose follows symbolic links in p (absolute) as far as they can be
+// followed and returns every intermediate spelling of the path, including the
+// final one, even when the resolution ends at a missing component (dangling
+// links are followed lexically). Used to decide which entries a call "names".
+func ResolveLoose(v avfs.VFS, p string) []string {
+	out := []string{p}
+	sep := string(v.PathSeparator())
+	cur := p
+
+	for hops := 0; hops < 40; hops++ {
+		vol := avfs.VolumeName(v, cur)
+		parts := strings.Split(strings.TrimPrefix(cur[len(vol):], sep), sep)
+		prefix := vol
+		changed := false
+
+		for i, part := range parts {
+			if part == "" {
+				continue
+			}
+
+			next := prefix + sep + part
+
+			var (
+				fi  fs.FileInfo
+				err error
+			)
+
+			if k, _ := Guard(func() { fi, err = v.Lstat(next) }); k != "" || err != nil {
+				return out
+			}
+
+			if fi.Mode()&fs.ModeSymlink == 0 {
+				prefix = next
+
+				continue
+			}
+
+			t, err := v.Readlink(next)
+			if err != nil {
+				return out
+			}
+
+			rest := strings.Join(parts[i+1:], sep)
+
+			if v.IsAbs(t) {
+				cur = v.Join(t, rest)
+			} else {
+				base := prefix
+				if base == vol {
+					base = vol + sep
+				}
+
+				cur = v.Join(base, t, rest)
+			}
+
+			out = append(out, cur)
+			changed = true
+
+			break
+		}
+
+		if !changed {
+			return out
+		}
+	}
+
+	return out
+}
+
+// TreeIndex maps the paths of a Dump to their type ("d", "f", "l") for operand
+// classification. Only for '/'-separated (Linux-typed) trees.
+type TreeIndex struct {
+	Typ      map[string]string
+	NonEmpty map[string]bool
+	Nlink    map[string]string
+	Target   map[string]string
+	Root     string
+}
+
+// IndexDump builds a TreeIndex from Dump lines whose paths are relative to
+// root (StripPfx = root) or absolute.
+func IndexDump(lines []string, root string) *TreeIndex {
+	ti := &TreeIndex{Typ: map[string]string{}, NonEmpty: map[string]bool{}, Nlink: map[string]string{}, Target: map[string]string{}, Root: root}
+
+	for _, l := range lines {
+		f := strings.Fields(l)
+		if len(f) < 2 || strings.HasPrefix(f[1], "!") {
+			continue
+		}
+
+		p := f[0]
+		if p == "." {
+			p = root
+		} else if !strings.HasPrefix(p, "/") {
+			p = root + "/" + p
+		} else if !strings.HasPrefix(p, root) {
+			p = root + p
+		}
+
+		ti.Typ[p] = f[1][:1]
+
+		for _, x := range f {
+			if len(x) > 1 && x[0] == 'n' && x[1] >= '0' && x[1] <= '9' {
+				ti.Nlink[p] = x[1:]
+			}
+		}
+
+		if i := strings.Index(l, " -> "); i >= 0 {
+			ti.Target[p] = l[i+4:]
+		}
+
+		if i := strings.LastIndex(p, "/"); i > 0 {
+			ti.NonEmpty[p[:i]] = true
+		}
+	}
+
+	return ti
+}
+
+// Class describes path p in the tree: root | file[(links)] | dirEmpty |
+// dirNonEmpty | symlink>file|dir|dangling|symlink | missing | missing(parent
+// missing) | below-file | below-symlink | outside.
+func (ti *TreeIndex) Class(p string) string {
+	if p == "" {
+		return "empty"
+	}
+
+	if p == ti.Root {
+		return "root"
+	}
+
+	if !strings.HasPrefix(p, ti.Root+"/") {
+		return "outside"
+	}
+
+	t, ok := ti.Typ[p]
+	if !ok {
+		par := p[:strings.LastIndex(p, "/")]
+		pt, pok := ti.Typ[par]
+
+		switch {
+		case !pok:
+			return "missing(parent missing)"
+		case pt == "d":
+			return "missing"
+		case pt == "f":
+			return "below-file"
+		default:
+			return "below-symlink>" + ti.resolveType(par, 0)
+		}
+	}
+
+	switch t {
+	case "d":
+		if ti.NonEmpty[p] {
+			return "dirNonEmpty"
+		}
+
+		return "dirEmpty"
+	case "f":
+		if n := ti.Nlink[p]; n != "" && n != "1" {
+			return "file(links)"
+		}
+
+		return "file"
+	case "l":
+		return "symlink>" + ti.resolveType(p, 0)
+	}
+
+	return t
+}
+
+func (ti *TreeIndex) resolveType(p string, depth int) string {
+	if depth > 8 {
+		return "loop"
+	}
+
+	t := ti.Target[p]
+	if t == "" {
+		return "?"
+	}
+
+	if !strings.HasPrefix(t, "/") {
+		t = p[:strings.LastIndex(p, "/")] + "/" + t
+	}
+
+	t = cleanPath(t)
+
+	switch ti.Typ[t] {
+	case "d":
+		return "dir"
+	case "f":
+		return "file"
+	case "l":
+		return ti.resolveType(t, depth+1)
+	}
+
+	return "dangling"
+}
+
+func cleanPath(p string) string {
+	var out []string
+
+	for _, s := range strings.Split(p, "/") {
+		switch s {
+		case "", ".":
+		case "..":
+			if len(out) > 0 {
+				out = out[:len(out)-1]
+			}
+		default:
+			out = append(out, s)
+		}
+	}
+
+	return "/" + strings.Join(out, "/")
+}
+
+// Relation describes how two paths alias: same | a-ancestor-of-b |
+// b-ancestor-of-a | hard-links | unrelated.
+func (ti *TreeIndex) Relation(a, b string, sameFile func(a, b string) bool) string {
+	switch {
+	case a == b:
+		return "same"
+	case strings.HasPrefix(b, a+"/"):
+		return "a-ancestor-of-b"
+	case strings.HasPrefix(a, b+"/"):
+		return "b-ancestor-of-a"
+	}
+
+	if sameFile != nil && ti.Typ[a] == "f" && ti.Typ[b] == "f" && sameFile(a, b) {
+		return "hard-links"
+	}
+
+	return "unrelated"
 }
